@@ -672,3 +672,20 @@ Proof.
   change 0 with (0 + 128 * (0 + 128 * 0)). change 128 with (128 + 0) at 1 3.
   repeat (apply cont_more; [lia|]). constructor. lia.
 Qed.
+
+(* the other outcomes, on the RFC 7541 C.1.2 example cut short / prolonged *)
+Example decode_int_need_more_example : decode_int 5 [31; 154] = RErr (NeedMore IntegerUnderflow).
+Proof. vm_compute. reflexivity. Qed.
+Example decode_int_truncated_example :
+  int_repr_L h2_int_limit 5 0 1337 [31; 154; 10] /\
+  decode_int 5 (firstn 2 [31; 154; 10]) = RErr (NeedMore IntegerUnderflow).
+Proof.
+  split; [|vm_compute; reflexivity]. split; [|cbn [length]; unfold h2_int_limit; lia].
+  change 1337 with (2 ^ 5 - 1 + (26 + 128 * 10)). change 31 with (0 * 2 ^ 5 + (2 ^ 5 - 1)).
+  constructor. change 154 with (128 + 26). apply cont_more; [lia|]. constructor. lia.
+Qed.
+Example decode_int_overflow_example :
+  decode_int 5 [31; 128; 128; 128; 128; 1] = RErr IntegerOverflow.
+Proof. vm_compute. reflexivity. Qed.
+Example decode_int_invalid_prefix_example : decode_int 9 [255] = RErr InvalidIntegerPrefix.
+Proof. vm_compute. reflexivity. Qed.
